@@ -102,6 +102,14 @@ class Check:
         self.extra = {}
         self.assumptions = []
         self.rule = ""
+        # replay files of earlier runs of this property are stale
+        if os.path.isdir(REPLAY_DIR) and not os.environ.get("VERIF_KEEP_REPLAYS"):
+            for fn in os.listdir(REPLAY_DIR):
+                if fn.startswith(pid + "-"):
+                    try:
+                        os.remove(os.path.join(REPLAY_DIR, fn))
+                    except OSError:
+                        pass
         fnd = load_findings()
         self.known = {f["key"]: f for f in fnd.get("findings", []) if f["property"] == pid}
 
